@@ -14,6 +14,8 @@ import Cte.Model.Ray
 import Cte.Model.Fshobst
 import Cte.Model.Schedules
 import Cte.Model.Solar
+import Cte.Model.Damage
+import Cte.Model.Bdl
 import Cte.Gen.Schema
 open Cte
 
@@ -261,6 +263,35 @@ def opEndDates (req : J) : J :=
             | some l => J.arr (l.map J.ofNat)
             | none => J.null)]
 
+/-- op `edgevert`: `Polygon::edge_vertices(name)` on an outline of `n` vertices -/
+def opEdgeVert (req : J) : J :=
+  let name := match req.get? "name" with | some (J.str s) => s | _ => ""
+  let n := match req.get? "n" with | some (J.num false k 0) => k | _ => 0
+  match Damage.edgeVertices name.toList n with
+  | some (i, j) => J.obj [("r", J.obj [("some", J.arr [J.ofNat i, J.ofNat j])])]
+  | none => J.obj [("r", J.str "none")]
+
+def jNum : Bdl.Num → J
+  | .fin neg mant e => J.obj [("neg", J.bool neg), ("mant", J.str (toString mant)), ("exp", J.ofInt e)]
+  | .inf neg => J.obj [("inf", J.bool neg)]
+  | .nan => J.str "nan"
+
+def jVal : Bdl.Val → J
+  | .num n => J.obj [("n", jNum n)]
+  | .str s => J.obj [("s", J.str (String.ofList s))]
+
+def jBlock (b : Bdl.Block) : J :=
+  J.obj [("btype", J.str (String.ofList b.btype)), ("name", J.str (String.ofList b.name)),
+         ("parent", match b.parent with | some p => J.str (String.ofList p) | none => J.null),
+         ("attrs", J.arr (b.attrs.map (fun kv => J.arr [J.str (String.ofList kv.1), jVal kv.2])))]
+
+/-- op `bdlblocks`: `build_blocks(text)` -/
+def opBdlBlocks (req : J) : J :=
+  let text := match req.get? "text" with | some (J.str s) => s | _ => ""
+  match Bdl.buildBlocks text.toList with
+  | .ok bs => J.obj [("ok", J.arr (bs.map jBlock))]
+  | .error e => J.obj [("err", J.str e)]
+
 /-- op `occupancy`: yearly occupied time and mean internal load -/
 def opOccupancy (m : Model) : J :=
   J.obj [("hours_in_use", J.ofNat (hoursInUse m)), ("average_load", jr (averageLoad (Fns.approx 0) m)),
@@ -318,6 +349,8 @@ def handle (line : String) : String :=
       | some (J.str "yeardays") => withModel req opYearDays
       | some (J.str "occupancy") => withModel req opOccupancy
       | some (J.str "enddates") => opEndDates req
+      | some (J.str "edgevert") => opEdgeVert req
+      | some (J.str "bdlblocks") => opBdlBlocks req
       | some (J.str "indicators") => withModel req (opIndicators req)
       | some (J.str "classify") => opClassify req
       | some (J.str "bvh") => opBvh req
